@@ -36,6 +36,8 @@ FRESH_METHODS = {"clone", "new_tensor", "new_zeros", "new_ones", "new_empty", "n
                  "unique", "bincount", "histc", "median", "isnan", "isinf", "isfinite", "nan_to_num", "fill_diagonal", "tril", "triu",
                  "sub_", "from_grid", "from_arg", "from_align_corners"}
 BITS = 4
+FRESH_ATTRS = {"shape", "dtype", "device", "ndim", "is_cuda", "requires_grad", "layout", "names", "is_sparse", "is_quantized",
+               "is_floating_point", "itemsize", "nbytes", "value", "name"}
 # module-level torch / numpy functions whose result may share storage with an argument
 TORCH_ALIAS_FUNCS = {"as_tensor", "asarray", "from_numpy", "reshape", "squeeze", "unsqueeze", "transpose", "permute", "flatten", "narrow",
                      "select", "view_as_real", "view_as_complex", "movedim", "moveaxis", "swapaxes", "swapdims", "atleast_1d", "atleast_2d",
@@ -67,22 +69,33 @@ def immutable_annotation(a):
 
 
 class Analyzer:
-    def __init__(self, fn):
+    def __init__(self, fn, resolver=None):
         self.fn = fn
+        self.resolver = resolver or (lambda name: None)
         self.vars = {}
         self.code = []
         self.nbits = 0
         self.calls = set()
         self.depth = 0
+        self.nested = {}
+        self.pure_fns = set()
+        self.nested_stack = []
+        self.ret_stack = []
         a = fn.args
         params = [x.arg for x in a.posonlyargs + a.args] + ([a.vararg.arg] if a.vararg else []) + [x.arg for x in a.kwonlyargs] \
             + ([a.kwarg.arg] if a.kwarg else [])
         self.params = params
+        self.new_containers = self.find_new_containers(fn, set(params))
         for p in params:
             self.var(p)
         self.nargs = len(params)
+        self.npos = len(a.posonlyargs) + len(a.args)
+        self.vararg_idx = self.npos if a.vararg else None
+        self.kwarg_idx = len(params) - 1 if a.kwarg else None
+        self.retvar = self.var("<return>")
         ann = {x.arg: x.annotation for x in a.posonlyargs + a.args + a.kwonlyargs}
-        self.targs = [i for i, p in enumerate(params) if not immutable_annotation(ann.get(p))]
+        # (a parameter called 'out' is an explicit output argument: writing it is the documented behaviour)
+        self.targs = [i for i, p in enumerate(params) if not immutable_annotation(ann.get(p)) and p != "out"]
 
     def var(self, name):
         if name not in self.vars:
@@ -107,6 +120,8 @@ class Analyzer:
         if e is None or isinstance(e, ast.Constant):
             return []
         if isinstance(e, ast.Name):
+            if e.id in self.nested:
+                raise Refuse(f"nested function {e.id} used as a value")
             return [(e.id, True)] if e.id in self.vars else []
         if isinstance(e, (ast.BinOp, ast.UnaryOp, ast.Compare, ast.BoolOp)):
             self.scan_children(e)
@@ -135,6 +150,9 @@ class Analyzer:
             self.sources(e.slice)
             return [(n, False) for n, _ in self.sources(e.value)]
         if isinstance(e, ast.Attribute):
+            if e.attr in FRESH_ATTRS:
+                self.sources(e.value)
+                return []        # immutable meta data of a tensor
             return [(n, False) for n, _ in self.sources(e.value)]
         if isinstance(e, (ast.ListComp, ast.GeneratorExp, ast.SetComp, ast.DictComp)):
             out = []
@@ -185,11 +203,99 @@ class Analyzer:
         self.code.append(("assign", False, tmp, [(self.var(n), c) for n, c in src]))
         self.code.append(("inplace", tmp))
 
+    @staticmethod
+    def find_new_containers(fn, params):
+        """names that are only ever bound to newly built containers (list(...), [...], {...}, comprehensions): assigning to
+        an item of such a container cannot reach an object of the caller"""
+        def builds(e):
+            if isinstance(e, (ast.List, ast.Dict, ast.Set, ast.ListComp, ast.DictComp, ast.SetComp)):
+                return True
+            if isinstance(e, ast.Call) and isinstance(e.func, ast.Name) and e.func.id in ("list", "dict", "set", "sorted", "OrderedDict"):
+                return True
+            if isinstance(e, ast.BinOp) and isinstance(e.op, (ast.Add, ast.Mult)):
+                return builds(e.left) or builds(e.right)
+            return False
+        ok, bad = set(), set(params)
+        for n in ast.walk(fn):
+            targets, value = [], None
+            if isinstance(n, ast.Assign):
+                targets, value = n.targets, n.value
+            elif isinstance(n, ast.AnnAssign) and n.value is not None:
+                targets, value = [n.target], n.value
+            elif isinstance(n, (ast.For, ast.comprehension)):
+                for t in ast.walk(n.target):
+                    if isinstance(t, ast.Name):
+                        bad.add(t.id)
+            elif isinstance(n, ast.NamedExpr):
+                bad.add(n.target.id)
+            elif isinstance(n, (ast.With,)):
+                for it in n.items:
+                    if it.optional_vars is not None:
+                        for t in ast.walk(it.optional_vars):
+                            if isinstance(t, ast.Name):
+                                bad.add(t.id)
+            for t in targets:
+                if isinstance(t, ast.Name):
+                    (ok if builds(value) else bad).add(t.id)
+                elif isinstance(t, (ast.Tuple, ast.List)):
+                    for x in ast.walk(t):
+                        if isinstance(x, ast.Name):
+                            bad.add(x.id)
+        return ok - bad
+
+    def is_pure_function_expr(self, e):
+        if isinstance(e, ast.IfExp):
+            return self.is_pure_function_expr(e.body) and self.is_pure_function_expr(e.orelse)
+        if isinstance(e, ast.Attribute):
+            return self.root(e) in PURE_MODULES and self.root(e) not in self.vars and e.attr not in TORCH_ALIAS_FUNCS and not e.attr.endswith("_")
+        return False
+
+    def tmp(self, src, strong=True):
+        self.ntmp = getattr(self, "ntmp", 0) + 1
+        name = f"<tmp{self.ntmp}>"
+        self.code.append(("assign", strong and self.depth == 0, self.var(name), [(self.var(n), c) for n, c in src]))
+        return name
+
+    def package_call(self, e, name, per_arg, kw_src, via=None):
+        """call of a function of the package: use its summary (result may refer to / function may write which parameters)"""
+        info = self.resolver(name, via) if via is not None else self.resolver(name)
+        if info is None:
+            return None
+        gkey, params, npos, vararg_idx, kwarg_idx = info
+        self.calls.add((via, name))
+        binds = []          # (callee parameter index, sources)
+        for i, (a, src) in enumerate(zip(e.args, per_arg)):
+            if isinstance(a, ast.Starred):
+                binds += [(p, src) for p in range(len(params))]
+            elif i < npos:
+                binds.append((i, src))
+            elif vararg_idx is not None:
+                binds.append((vararg_idx, src))
+            else:
+                raise Refuse(f"too many positional arguments for {name}")
+        for k, src in kw_src:
+            if k is None:
+                binds += [(p, src) for p in range(len(params))]
+            elif k in params:
+                binds.append((params.index(k), src))
+            elif kwarg_idx is not None:
+                binds.append((kwarg_idx, src))
+            else:
+                raise Refuse(f"unknown keyword {k} for {name}")
+        res = []
+        for pidx, src in binds:
+            if not src:
+                continue
+            t = self.tmp(src)
+            self.code.append(("callw", gkey, pidx, self.var(t)))
+            res.append((t, ("ret", gkey, pidx)))
+        r = self.tmp(res)
+        return [(r, True)]
+
     def call(self, e):
-        args = list(e.args) + [k.value for k in e.keywords]
-        arg_src = []
-        for a in args:
-            arg_src += self.sources(a)
+        per_arg = [self.sources(a) for a in e.args]
+        kw_src = [(k.arg, self.sources(k.value)) for k in e.keywords]
+        arg_src = [x for src in per_arg for x in src] + [x for _, src in kw_src for x in src]
         for k in e.keywords:
             if k.arg == "out":
                 self.inplace(self.root(k.value))
@@ -218,22 +324,39 @@ class Analyzer:
                 return [(n, False) for n, _ in base_src + arg_src]
             # function from a module (torch.xxx, F.xxx, U.xxx, np.xxx, math.xxx)
             mod = self.root(f.value)
-            if mod in PURE_MODULES and m not in TORCH_ALIAS_FUNCS:
-                return []                   # trusted: returns new storage and writes none of its arguments
-            self.calls.add(m)
+            if mod in PURE_MODULES:
+                if m not in TORCH_ALIAS_FUNCS:
+                    return []               # trusted: returns new storage and writes none of its arguments
+                return [(n, False) for n, _ in arg_src]
+            if isinstance(f.value, ast.Name):
+                r = self.package_call(e, m, per_arg, kw_src, via=f.value.id)      # A.transform_points(...): module alias
+                if r is not None:
+                    return r
             return [(n, False) for n, _ in arg_src]
+        if isinstance(f, ast.Name) and f.id in self.nested:
+            params, body, ret = self.nested[f.id]
+            if e.keywords and any(k.arg is None for k in e.keywords):
+                raise Refuse("nested function called with **kwargs")
+            bound = list(zip(params, per_arg)) + [(k, src) for k, src in kw_src if k in params]
+            for prm, src in bound:
+                self.code.append(("assign", False, self.var(prm), [(self.var(n), c) for n, c in src]))
+            self.code.extend(body)
+            return [(f"<return of {f.id}>", False)]
         if isinstance(f, ast.Name):
             if f.id in ("setattr", "exec", "eval", "globals", "locals", "vars", "delattr"):
                 raise Refuse(f"call of {f.id}")
             if f.id.endswith("_") and e.args:
                 self.inplace(self.root(e.args[0]))
-            if f.id in ("len", "int", "float", "bool", "str", "isinstance", "range", "enumerate_", "type", "repr", "print", "min", "max",
+            if f.id in ("len", "int", "float", "bool", "str", "isinstance", "range", "enumerate_", "type", "repr", "print",
                         "abs", "sum", "any", "all", "hasattr", "callable", "id", "round", "ValueError", "TypeError", "RuntimeError",
                         "AssertionError", "NotImplementedError", "IndexError", "KeyError", "DeprecationWarning"):
                 return []
-            self.calls.add(f.id)
-            if f.id in self.vars:      # calling a parameter (callable argument)
-                return [(n, False) for n, _ in arg_src]
+            if f.id in self.pure_fns and f.id not in self.vars:
+                return []
+            if f.id not in self.vars:
+                r = self.package_call(e, f.id, per_arg, kw_src)
+                if r is not None:
+                    return r
             return [(n, False) for n, _ in arg_src]
         # call of a call result etc.
         self.sources(f)
@@ -253,7 +376,8 @@ class Analyzer:
             r = self.root(t)
             self.sources(t.slice)
             if r in self.vars:
-                self.inplace(r)
+                if not (isinstance(t.value, ast.Name) and t.value.id in self.new_containers):
+                    self.inplace(r)      # (an item of a container built in this function is only re-bound)
                 self.code.append(("assign", False, self.var(r), [(self.var(n), False) for n, _ in src]))
         elif isinstance(t, ast.Attribute):
             r = self.root(t)
@@ -285,6 +409,9 @@ class Analyzer:
         if isinstance(s, ast.Expr):
             self.sources(s.value)
         elif isinstance(s, ast.Assign):
+            if len(s.targets) == 1 and isinstance(s.targets[0], ast.Name) and self.is_pure_function_expr(s.value):
+                self.pure_fns.add(s.targets[0].id)      # conv_fn = F.conv_transpose1d if transpose else F.conv1d
+                return
             src = self.sources(s.value)
             for t in s.targets:
                 self.assign_target(t, src, weak=False)
@@ -296,35 +423,40 @@ class Analyzer:
             r = self.root(s.target)
             self.inplace(r)          # tensor.__iadd__ writes in place
         elif isinstance(s, ast.Return):
-            self.sources(s.value)
+            src = self.sources(s.value)
+            ret = self.ret_stack[-1] if self.ret_stack else self.retvar
+            self.code.append(("assign", False, ret, [(self.var(n), c) for n, c in src]))
         elif isinstance(s, ast.If):
             fl = self.const_flag(s.test)
             if fl is not None:
                 # explicit in-place flag: the branch taken for inplace=False
-                self.block(s.orelse if fl[0] else s.body)
+                self.block(s.orelse if fl[0] else s.body, nested=False)
                 return
             self.sources(s.test)
-            self.block(s.body)
-            self.block(s.orelse)
+            outer = self.code
+            self.code = []
+            self.block(s.body, nested=False)
+            a, self.code = self.code, []
+            self.block(s.orelse, nested=False)
+            b, self.code = self.code, outer
+            self.code.append(("if", a, b))
         elif isinstance(s, (ast.For, ast.AsyncFor)):
             src = self.sources(s.iter)
             outer = self.code
             self.code = []
-            self.depth += 1
-            self.assign_target(s.target, [(n, False) for n, _ in src], weak=True)
-            self.depth -= 1
-            self.block(s.body)
+            self.assign_target(s.target, [(n, False) for n, _ in src], weak=False)
+            self.block(s.body, nested=False)
             body, self.code = self.code, outer
             self.code.append(("loop", body))
-            self.block(s.orelse)
+            self.block(s.orelse, nested=False)
         elif isinstance(s, ast.While):
             outer = self.code
             self.code = []
             self.sources(s.test)
-            self.block(s.body)
+            self.block(s.body, nested=False)
             body, self.code = self.code, outer
             self.code.append(("loop", body))
-            self.block(s.orelse)
+            self.block(s.orelse, nested=False)
         elif isinstance(s, (ast.With, ast.AsyncWith)):
             for it in s.items:
                 src = self.sources(it.context_expr)
@@ -350,11 +482,22 @@ class Analyzer:
                 if isinstance(t, ast.Subscript) and self.root(t) in self.vars:
                     self.inplace(self.root(t))
         elif isinstance(s, ast.FunctionDef):
-            # nested helper: analysed in the same variable space (closure variables keep their names)
-            for a in s.args.posonlyargs + s.args.args + s.args.kwonlyargs:
-                self.var(a.arg)
-            self.var(s.name)
-            self.block(s.body)
+            # nested helper: its body is analysed on its own (same variable space: closure variables keep their names) and
+            # inlined at every direct call; any other use of its name is refused
+            if s.args.vararg or s.args.kwarg or s.name in self.nested_stack:
+                raise Refuse("nested function with *args / recursion")
+            params = [a.arg for a in s.args.posonlyargs + s.args.args + s.args.kwonlyargs]
+            for a in params:
+                self.var(a)
+            ret = self.var(f"<return of {s.name}>")
+            outer, self.code = self.code, []
+            self.nested_stack.append(s.name)
+            self.ret_stack.append(ret)
+            self.block(s.body, nested=False)
+            self.ret_stack.pop()
+            self.nested_stack.pop()
+            body, self.code = self.code, outer
+            self.nested[s.name] = (params, body, ret)
         elif isinstance(s, (ast.Global, ast.Nonlocal, ast.ClassDef)):
             raise Refuse(type(s).__name__)
         else:
@@ -377,14 +520,39 @@ def module_functions(path):
             fns[n.name] = n       # the last definition wins (overloads first)
         elif isinstance(n, ast.Assign) and len(n.targets) == 1 and isinstance(n.targets[0], ast.Name) and isinstance(n.value, ast.Name):
             aliases[n.targets[0].id] = n.value.id
-        elif isinstance(n, ast.ImportFrom) and n.level >= 1:
+        elif isinstance(n, ast.ImportFrom) and (n.level >= 1 or (n.module or "").split(".")[0] == "deepali"):
             for a in n.names:
                 imports[a.asname or a.name] = (n.level, n.module, a.name)
+        elif isinstance(n, ast.Import):
+            for a in n.names:
+                if a.name.split(".")[0] == "deepali" and a.asname:
+                    imports[a.asname] = (0, a.name, None)
     return tree, fns, aliases, imports
 
 
-def resolve(root, rel, name, cache, depth=0):
-    """-> (file rel path, FunctionDef) or None"""
+def module_path(root, rel, level, module, name):
+    """file (relative to root) of the module an import statement refers to; name is tried as a sub-module"""
+    if level == 0:
+        base = ""
+        parts = (module or "").split(".")
+    else:
+        base = os.path.dirname(rel)
+        for _ in range(level - 1):
+            base = os.path.dirname(base)
+        parts = module.split(".") if module else []
+    cands = []
+    if name is not None:
+        cands.append((os.path.join(base, *parts, name), None))      # from pkg import module
+    cands.append((os.path.join(base, *parts), name))                # from module import function
+    for cand, orig in cands:
+        for c in (cand + ".py", os.path.join(cand, "__init__.py")):
+            if os.path.exists(os.path.join(root, c)):
+                return c, orig
+    return None, None
+
+
+def resolve(root, rel, name, cache, depth=0, via=None):
+    """-> (file rel path, FunctionDef) or None.  via: name of a module alias (`A.transform_points`)"""
     if depth > 6:
         return None
     if rel not in cache:
@@ -393,25 +561,24 @@ def resolve(root, rel, name, cache, depth=0):
             return None
         cache[rel] = module_functions(p)
     tree, fns, aliases, imports = cache[rel]
+    if via is not None:
+        if via not in imports:
+            return None
+        level, module, orig = imports[via]
+        c, o = module_path(root, rel, level, module, orig)
+        if c is None or o is not None:
+            return None          # the alias is not a module
+        return resolve(root, c, name, cache, depth + 1)
     if name in fns:
         return rel, fns[name]
     if name in aliases:
         return resolve(root, rel, aliases[name], cache, depth + 1)
     if name in imports:
         level, module, orig = imports[name]
-        base = os.path.dirname(rel)
-        for _ in range(level - 1):
-            base = os.path.dirname(base)
-        if module:
-            cand = os.path.join(base, *module.split("."))
-        else:
-            cand = os.path.join(base, orig)
-            orig = None
-        for c in (cand + ".py", os.path.join(cand, "__init__.py")):
-            if os.path.exists(os.path.join(root, c)):
-                if orig is None:
-                    return None       # a module, not a function
-                return resolve(root, c, orig, cache, depth + 1)
+        c, o = module_path(root, rel, level, module, orig)
+        if c is None or o is None:
+            return None           # a module, not a function
+        return resolve(root, c, o, cache, depth + 1)
     return None
 
 
@@ -459,8 +626,18 @@ def analyse_all(root):
                 done[label] = done[key]
             continue
         seen.add(key)
+        def resolver(nm, via=None, rel=rel):
+            rr = resolve(root, rel, nm, cache, via=via)
+            if rr is None:
+                return None
+            rel2, fn2 = rr
+            ar = fn2.args
+            prm = [x.arg for x in ar.posonlyargs + ar.args] + ([ar.vararg.arg] if ar.vararg else []) + [x.arg for x in ar.kwonlyargs] \
+                + ([ar.kwarg.arg] if ar.kwarg else [])
+            npos = len(ar.posonlyargs) + len(ar.args)
+            return (f"{rel2}:{fn2.name}", prm, npos, npos if ar.vararg else None, len(prm) - 1 if ar.kwarg else None)
         try:
-            a = Analyzer(fn).run()
+            a = Analyzer(fn, resolver).run()
         except Refuse as e:
             refused.append((label, str(e)))
             continue
@@ -468,8 +645,8 @@ def analyse_all(root):
         if public:
             done[label] = a
         # callees inside the package are analysed too (their cleanliness is what makes calling them harmless)
-        for c in sorted(a.calls):
-            rr = resolve(root, rel, c, cache)
+        for via, c in sorted(a.calls, key=str):
+            rr = resolve(root, rel, c, cache, via=via)
             if rr is not None:
                 queue.append((rel, c, rr, False))
     return done, refused
@@ -527,30 +704,140 @@ def copy_tables(root):
     return out
 
 
+def lower(instrs, index, bitgen):
+    """instruction tuples -> nested python structure with callee indices; calls of refused callees become conservative"""
+    out = []
+    for ins in instrs:
+        if ins[0] == "inplace":
+            out.append(("inplace", ins[1]))
+        elif ins[0] == "loop":
+            out.append(("loop", lower(ins[1], index, bitgen)))
+        elif ins[0] == "if":
+            out.append(("if", lower(ins[1], index, bitgen), lower(ins[2], index, bitgen)))
+        elif ins[0] == "callw":
+            _, gkey, pidx, v = ins
+            out.append(("callw", index[gkey], pidx, v) if gkey in index else ("inplace", v))
+        else:
+            _, strong, v, src = ins
+            ss = []
+            for sv, c in src:
+                if isinstance(c, tuple):
+                    ss.append(("ret", index[c[1]], c[2], sv) if c[1] in index else ("maybe", sv, bitgen()))
+                elif c:
+                    ss.append(("var", sv))
+                else:
+                    ss.append(("maybe", sv, bitgen()))
+            out.append(("assign", strong, v, ss))
+    return out
+
+
+def union(a, b):
+    return a + [x for x in b if x not in a]
+
+
+def evaluate(sk, summ):
+    """mirror of Model/Heap.v step with the all-true branch vector: (returned, written)"""
+    nv = sk["nvars"]
+    st = ([[k] if k in sk["targs"] else [] for k in range(nv)], [])
+    bound = (nv + 1) * (len(sk["targs"]) + 1)
+
+    def run(code, st):
+        for ins in code:
+            st = step(ins, st)
+        return st
+
+    def join(a, b):
+        return ([union(x, y) for x, y in zip(a[0], b[0])], union(a[1], b[1]))
+
+    def step(ins, st):
+        p, w = st
+        if ins[0] == "assign":
+            _, strong, v, srcs = ins
+            new = []
+            for s_ in srcs:
+                if s_[0] == "var" or s_[0] == "maybe":
+                    new = union(new, p[s_[1]])
+                elif s_[0] == "ret" and s_[2] in summ[s_[1]][0]:
+                    new = union(new, p[s_[3]])
+            p = list(p)
+            p[v] = new if strong else union(new, p[v])
+            return (p, w)
+        if ins[0] == "inplace":
+            return (p, union(w, p[ins[1]]))
+        if ins[0] == "callw":
+            return (p, union(w, p[ins[3]])) if ins[2] in summ[ins[1]][1] else st
+        if ins[0] == "if":
+            return join(run(ins[1], st), run(ins[2], st))
+        if ins[0] == "loop":
+            for _ in range(bound):
+                new = join(st, run(ins[1], st))
+                if [sorted(x) for x in new[0]] == [sorted(x) for x in st[0]] and sorted(new[1]) == sorted(st[1]):
+                    break
+                st = new
+            return st
+        raise ValueError(ins[0])
+    p, w = run(sk["code"], st)
+    return sorted(p[sk["retvar"]]), sorted(w)
+
+
+def coq_code(code):
+    out = []
+    for ins in code:
+        if ins[0] == "inplace":
+            out.append(f"IInplace {ins[1]}")
+        elif ins[0] == "loop":
+            out.append("ILoop [" + "; ".join(coq_code(ins[1])) + "]")
+        elif ins[0] == "if":
+            out.append("IIf [" + "; ".join(coq_code(ins[1])) + "] [" + "; ".join(coq_code(ins[2])) + "]")
+        elif ins[0] == "callw":
+            out.append(f"ICallW {ins[1]} {ins[2]} {ins[3]}")
+        else:
+            _, strong, v, ss = ins
+            items = []
+            for x in ss:
+                items.append(f"SVar {x[1]}" if x[0] == "var" else (f"SMaybe {x[1]} {x[2]}" if x[0] == "maybe" else f"SRet {x[1]} {x[2]} {x[3]}"))
+            out.append(f"IAssign {'true' if strong else 'false'} {v} [" + "; ".join(items) + "]")
+    return out
+
+
 def generate(loader):
     done, refused = analyse_all(loader.root)
+    labels = sorted(done)
+    index = {}
+    for i, label in enumerate(labels):
+        # calls refer to the defining module's key  "<file>:<function>"
+        if ":" in label and label not in index:
+            index[label] = i
+    sks = []
+    for label in labels:
+        a = done[label]
+        cnt = [0]
+
+        def bitgen(cnt=cnt):
+            cnt[0] += 1
+            return (cnt[0] - 1) % BITS
+        code = lower(a.code, index, bitgen)
+        sks.append({"name": label, "targs": a.targs, "nvars": len(a.vars), "nbits": min(cnt[0], BITS), "retvar": a.retvar, "code": code})
+    # summaries: least fixpoint (the Coq side re-checks every one of them)
+    summ = [([], []) for _ in sks]
+    for _ in range(50):
+        new = [evaluate(sk, summ) for sk in sks]
+        new = [(sorted(set(a) | set(c)), sorted(set(b) | set(d))) for (a, b), (c, d) in zip(summ, new)]
+        if new == summ:
+            break
+        summ = new
+    else:
+        raise Refuse("summaries did not stabilise")
     out = ["From Coq Require Import String.", "From DV Require Import Model.Heap.", "Local Close Scope fld_scope.", "Local Open Scope nat_scope.", ""]
     rows = []
-    for label in sorted(done):
-        a = done[label]
-        def emit(instrs):
-            code = []
-            for ins in instrs:
-                if ins[0] == "inplace":
-                    code.append(f"IInplace {ins[1]}")
-                elif ins[0] == "loop":
-                    code.append("ILoop [" + "; ".join(emit(ins[1])) + "]")
-                else:
-                    _, strong, v, src = ins
-                    ss = []
-                    for sv, certain in src:
-                        ss.append(f"SVar {sv}" if certain else f"SMaybe {sv} {a.bit()}")
-                    code.append(f"IAssign {'true' if strong else 'false'} {v} [" + "; ".join(ss) + "]")
-            return code
-        code = emit(a.code)
-        targs = "[" + "; ".join(str(i) for i in a.targs) + "]"
-        rows.append(f"  mkSkel {cstr(label)} {targs} {len(a.vars)} {min(a.nbits, BITS)} [" + "; ".join(code) + "]")
+    for sk in sks:
+        targs = "[" + "; ".join(str(i) for i in sk["targs"]) + "]"
+        rows.append(f"  mkSkel {cstr(sk['name'])} {targs} {sk['nvars']} {sk['nbits']} {sk['retvar']} [" + "; ".join(coq_code(sk["code"])) + "]")
     out.append("Definition gen_skeletons : list skel := [\n" + ";\n".join(rows) + "].\n")
+    out.append("(* claimed summaries (result may refer to parameters, parameters possibly written): least fixpoint computed by the\n"
+               "   translator, re-checked skeleton by skeleton in Props/C15.v *)")
+    out.append("Definition gen_summaries : list summary := [\n" + ";\n".join(
+        "  ([" + "; ".join(map(str, r)) + "], [" + "; ".join(map(str, w)) + "])" for r, w in summ) + "].\n")
     out.append("Definition gen_refused : list (string * string) := [\n"
                + ";\n".join(f"  ({cstr(a)}, {cstr(b)})" for a, b in sorted(refused)) + "].\n")
     out += copy_tables(loader.root)
